@@ -506,6 +506,9 @@ def decide(pid, cfg, args, workdir, t_start):
     corpus = corpus_lines(pid)
     known = [k for k in load_known() if k.get("property") == pid and k.get("status") == "known"]
     known_ops = {k["op"]: k for k in known if "op" in k}
+    for k in known:
+        for o in k.get("ops", []):
+            known_ops[o] = k
     if hok and drv_ok and cfg.get("harness", True):
         ops_path = os.path.join(workdir, "gen.ops")
         env = dict(GOENV)
@@ -598,11 +601,14 @@ def decide(pid, cfg, args, workdir, t_start):
                                {"no_longer_checks": what, "cases": shr_cases, "search": search_info}))
 
     # ---- output ------------------------------------------------------------------------------
+    printed = set()
     for k, c in known_hits:
-        print(f"KNOWN-FINDING: property={pid} {k.get('id', '')} {k.get('what', '')}")
+        if k.get("id") not in printed:
+            printed.add(k.get("id"))
+            print(f"KNOWN-FINDING: property={pid} {k.get('id', '')} {k.get('what', '')} [witness: {c.op[:120]}]")
     # known findings listed but not exercised by an op (e.g. proved negations) are printed too
     for k in known:
-        if "op" not in k:
+        if "op" not in k and "ops" not in k and k.get("id") not in printed:
             print(f"KNOWN-FINDING: property={pid} {k.get('id', '')} {k.get('what', '')}")
     exit_code = 0
     for n, (kind, desc, rp) in enumerate(violations):
